@@ -29,6 +29,9 @@ fn script(c: &CtxCase) -> String {
             "S=$S{i}\ncase \"$S\" in $P) echo \"{i} case:1\";; *) echo \"{i} case:0\";; esac\n[[ $S == $P ]]; echo \"{i} dbl:$?\"\n[[ $S != $P ]]; echo \"{i} ne:$?\"\nargdump \"${{S#$P}}\" \"${{S##$P}}\" \"${{S%$P}}\" \"${{S%%$P}}\"\n"
         ));
     }
+    // quoted segments are literals: the same pattern text, quoted, must match only itself (also as a prefix
+    // followed by an unquoted `*`), whatever metacharacters or extglob groups it contains
+    s.push_str("for S in \"$P\" \"${P}x\" \"$S0\"; do\ncase \"$S\" in \"$P\") echo \"q case:1\";; *) echo \"q case:0\";; esac\n[[ $S == \"$P\" ]]; echo \"q dbl:$?\"\n[[ $S == \"$P\"* ]]; echo \"q pre:$?\"\ncase \"$S\" in \"$P\"?) echo \"q one:1\";; *) echo \"q one:0\";; esac\nargdump \"${S#\"$P\"}\" \"${S%\"$P\"}\" \"${S/\"$P\"/X}\"\ndone\n");
     s.push_str("echo @END\n");
     s
 }
